@@ -239,6 +239,19 @@ class Session(object):
         self._track(ev, out)
         return out
 
+    def do_nosync(self, ev):
+        """Write the line WITHOUT a following sync line (so that it really is the last thing the daemon reads before a pause);
+        whatever it causes is attributed to the next synchronised step."""
+        if self.dead:
+            return
+        try:
+            self.d.raw((render(ev) + "\n").encode("latin-1"))
+        except (daemon.Died, daemon.Hang):
+            self.dead = True
+            self.trace.died_at = len(self.trace.steps)
+        self.trace.steps.append((ev, []))
+        self._track(ev, [])
+
     def _track(self, ev, out):
         t = ev["t"]
         if t == "announce":
